@@ -410,6 +410,11 @@ Definition list_events (chans : list str) (mel : Z) : list sevent :=
 
 Definition max_event_length (s : state) : Z := (st_maxline s - st_maxprefix s)%Z.
 
+(* state.go state.reset(false), which conn.go internalConnect calls before every connection,
+   as far as the limits go: server options emptied, both lengths back to the defaults *)
+Definition reset_conn (s : state) : state :=
+  set_maxprefix (set_maxline (set_opts s []) default_max_line) default_max_prefix.
+
 (* Send (GlobalFormat off): the events queued for the send loop, in order *)
 Definition send (s : state) (e : sevent) : res (list sevent) := event_split e (max_event_length s).
 
